@@ -231,6 +231,9 @@ pub fn run_prop(ctx: &Ctx, sink: &mut Sink) {
         SysCase { stack: 8 << 20, n: 0, s: 0, envc: 0, envlen: 0, groups: vec![(3, 10), (1, 131_072), (3, 10)] },
         SysCase { stack: UNLIMITED, n: 0, s: 0, envc: 5, envlen: 40, groups: vec![(1, 131_072)] },
         SysCase { stack: 8 << 20, n: 2, s: 0, envc: 0, envlen: 0, groups: vec![(2, 131_071), (1, 131_073), (1, 8)] },
+        // thousands of small environment variables: their pointers count as much as their bytes
+        SysCase { stack: 8 << 20, n: 0, s: 0, envc: 3000, envlen: 10, groups: vec![(300_000, 1)] },
+        SysCase { stack: 512 << 10, n: 0, s: 0, envc: 1500, envlen: 9, groups: vec![(80_000, 1)] },
     ];
     let nrand = if ctx.thorough { 70 } else { 6 };
     for _ in 0..nrand {
